@@ -281,6 +281,29 @@ def matrix_protos():
         mk(tag, [num(fa, 'u32'), dyn(fb), num(mk_, 'u8'), Field('match', mn, key=mk_, pairs=[([1], 'Logon'), ([2], 'Logout')]),
                  Field('ref', rn, packet='Detail', named=True), Field('inline', 'In' + tag, fields=[num(fa, 'u16'), fix(fb, 3)])],
            subs=[('Logon', [dyn(fa)]), ('Logout', [num(fb, 'u8')]), ('Detail', [num(fa, 'u16')])])
+    # kitchen-sink packets: every field kind (plain and repeated) inside a match payload, a repeated object, an inline object
+    def sink_fields(attrs=True):
+        fs = [num('Ua', 'u8'), num('Ib', 'i16'), num('Uc', 'u32'), num('Id', 'i64'), num('Fe', 'f32'), num('Ff', 'f64'),
+              num('Rg', 'i8', repeat=True), num('Rh', 'u64', repeat=True), num('Ri', 'f32', repeat=True),
+              fix('Sa', 5), fix('Sb', 3, zchar=True), dyn('Sc'), dyn('Sd', 'char[]', repeat=True), fix('Se', 4, repeat=True), fix('Sf', 2, zchar=True, repeat=True)]
+        if attrs:
+            fs += [fix('Pa', 6, pad=('left', '0')), fix('Pb', 4, pad=('right', '0'), repeat=True), fix('Pc', 3, pad=('left', 'sp'), repeat=True),
+                   Field('meta', 'Code', entry='Code', named=False), Field('meta', 'Px', entry='Price', named=True, repeat=True)]
+        fs += [Field('ref', 'Leaf', packet='Leaf', named=False), Field('ref', 'Leaves', packet='Leaf', named=True, repeat=True),
+               Field('inline', 'Deep', fields=[num('Da', 'u16'), fix('Db', 2, repeat=True), Field('inline', 'Deeper', fields=[dyn('Dc'), num('Dd', 'i32', repeat=True)], repeat=True)])]
+        return fs
+    leaf = ('Leaf', [num('La', 'u16'), dyn('Lb'), fix('Lc', 3, repeat=True)])
+    j = 0
+    for cfg in (None, {'LittleEndian': 'true', 'StringPrefixLenType': 'u8', 'ArrayPrefixLenType': 'u32'}, {'StringPrefixLenType': 'u32', 'ArrayPrefixLenType': 'u8', 'FixedStringPadChar': "'0'"}):
+        j += 1
+        mk(alpha_tag('Mk', j), [num('Kind', 'u8'), Field('match', 'Body', key='Kind', pairs=[([1], 'Sink'), ([2], 'Leaf')]), num('Post', 'u16')],
+           subs=[('Sink', sink_fields()), leaf], options=cfg, metadata=md)
+        j += 1
+        mk(alpha_tag('Mk', j), [num('Pre', 'u8'), Field('ref', 'Items', packet='Sink', named=True, repeat=True), Field('ref', 'Sink', packet='Sink', named=False), num('Post', 'u16')],
+           subs=[('Sink', sink_fields()), leaf], options=cfg, metadata=md)
+        j += 1
+        mk(alpha_tag('Mk', j), [num('Pre', 'u8'), Field('inline', 'Inl', fields=sink_fields(attrs=False)), Field('inline', 'Rinl', fields=sink_fields(attrs=False)[:12], repeat=True), num('Post', 'u16')],
+           subs=[leaf], options=cfg, metadata=md)
     # char
     j = 0
     for rep in (False, True):
